@@ -508,7 +508,7 @@ static void DecodeWORD(Word Index) {
     PrefixedSDBD = False;
 
     as_tempres_ini(&t);
-    if (ChkArgCnt(1, ArgCntMax)) {
+    if (ChkArgCnt(1, ArgCntMax) && ChkArgCodeSpace(2)) {
         OK = True;
         for (z = 1; z <= ArgCnt; z++) {
             if (OK) {
